@@ -125,6 +125,129 @@ add("c02_sep_replace_piece", ["C02", "C05"], "quick",
     ["Board::put", "Board::remove"], H_ASSUME, est_s=30)
 
 
+MG = "move_generator::kani_verif::"
+MT = "move_generator::magic_table::kani_verif::"
+NOSPILL = "smallvec::SmallVec::reserve_one_unchecked (cold grow path) -> panic!: a list that would exceed its inline capacity is a reported failure, not a dropped path"
+ATTSTUB = "Targets::generate_attack_targets -> returns a harness-chosen arbitrary bitboard A and records (colour, board) it was asked about; contract discharged by the A1 lemmas + C11"
+
+for col, cname, w in [("w", "White", True), ("b", "Black", False)]:
+    add(f"c01_ep_{col}", ["C01"], "quick",
+        f"generate_en_passant_moves for {cname}: emitted set == {{own pawn diagonally behind the target}} x {{target}}; <=2, no duplicates, nothing without a target",
+        ["generate_en_passant_moves", "Board::peek_en_passant_target", "PieceSet::locate"],
+        "fully symbolic Disjoint board, symbolic ep target (empty or one-hot)", stubs=[NOSPILL], module=MG, est_s=60)
+    add(f"c01_castle_{col}", ["C01"], "quick",
+        f"generate_castle_moves for {cname}: O-O emitted <=> right held, f/g empty, king and f-square outside A; O-O-O <=> right held, b/c/d empty, king and d-square outside A; A requested once, for the opponent, on this board",
+        ["generate_castle_moves", "Board::peek_castle_rights", "Board::get", "CastleChessMove::castle_kingside/queenside"],
+        "fully symbolic RepInv board; A arbitrary 64-bit attack map", stubs=[NOSPILL, ATTSTUB], module=MG, est_s=240)
+    add(f"c01_wire_{col}", ["C01"], "quick",
+        f"generate_valid_moves for {cname} with all six stage functions stubbed: each stage runs exactly once with the caller's board and colour, the filter runs last over the concatenation of all stage outputs, its output is returned",
+        ["generate_valid_moves"], "fully symbolic Disjoint board; symbolic subset kept by the filter stub",
+        stubs=[NOSPILL, "generate_knight_moves, generate_sliding_moves, generate_king_moves, generate_pawn_moves, generate_castle_moves -> push one marker move and record (board, colour); remove_invalid_moves -> records the list it sees, keeps a symbolic subset; contracts discharged by the stage harnesses c01_*"],
+        module=MG, est_s=60)
+    add(f"c01_wire_pawn_{col}", ["C01"], "quick",
+        f"generate_pawn_moves for {cname} with its four sub-stages stubbed: capture targets = attack squares holding enemy pieces, a last-rank move becomes exactly the four promotions (same squares, same capture tag) and never stays standard, other moves stay, en-passant moves appended once, existing list entries preserved",
+        ["generate_pawn_moves", "PAWN_PROMOTIONS", "PawnPromotionChessMove::new"],
+        "fully symbolic Disjoint board; symbolic outputs of the stubbed sub-stages",
+        stubs=[NOSPILL, "generate_pawn_move_targets, generate_pawn_attack_targets, expand_piece_targets, generate_en_passant_moves -> symbolic outputs + argument records; contracts discharged by c01_pawn_*, c01_expand_*, c01_ep_*"],
+        module=MG, unwind=10, est_s=120)
+    for kind in ["std", "promo", "ep", "oo", "ooo"]:
+        add(f"c01_filter_{kind}_{col}", ["C01", "C04"], "quick" if kind in ("std",) else "thorough",
+            f"remove_invalid_moves on a singleton list holding a Legalish {KIND_NAMES[kind]} by {cname}: kept <=> A misses the mover's king in the successor position; A requested for the opponent on the successor position; board bit-identical afterwards",
+            ["remove_invalid_moves"] + APPLY_FNS[kind] + ["ChessMove::apply", "ChessMove::undo"], STEP_ASSUME + "; A arbitrary 64-bit attack map",
+            stubs=[NOSPILL, ATTSTUB], module=MG, est_s=200)
+add("c01_filter_pair_w", ["C01"], "thorough",
+    "remove_invalid_moves on two candidates: each is tried on the original position with its own attack map, kept independently, order preserved, board restored",
+    ["remove_invalid_moves", "StandardChessMove::apply", "StandardChessMove::undo"], STEP_ASSUME, stubs=[NOSPILL, ATTSTUB], module=MG, est_s=400, heavy=True)
+for nm, d in [("m5_knight_table", "generate_knight_targets_table()[sq] == on-board L-jumps (no wrap-around), symbolic sq"),
+              ("m5_king_table", "generate_king_targets_table()[sq] == adjacent on-board squares (no wrap-around), symbolic sq"),
+              ("m5_tables_wired", "Targets::default() stores the king table in `kings` and the knight table in `knights`")]:
+    add(nm, ["C11", "C01"], "quick", d, ["generate_knight_targets_table", "generate_king_targets_table", "Targets::default"],
+        "symbolic square index over the concretely built 64-entry table",
+        stubs=(["MagicTable::new -> empty tables (the magic tables are M1-M3's subject)"] if nm == "m5_tables_wired" else []),
+        module=MG, unwind=66, est_s=60)
+
+for piece in ["rook", "bishop"]:
+    for start in ["00", "16", "32", "48"]:
+        add(f"m1_{piece}_{start}", ["C11"], "quick",
+            f"M1 {piece}, squares {int(start)}..{int(start)+15}, this build's magic constants: for EVERY 64-bit occupancy occ and EVERY subset b of the mask, magic_index(occ)==magic_index(b) => slider_moves(b) == reference rays(occ); index inside the square's segment; segments disjoint and inside the table",
+            ["magic_index", "slider_moves", "try_offset", f"{piece.upper()}_MAGICS / {piece.upper()}_TABLE_SIZE (build-script output of this Kani build)"],
+            "square concrete (16 per harness), occ: symbolic u64 (all 2^64), b: symbolic subset of the mask",
+            module=MT, unwind=17, est_s=90)
+add("witness_m1", ["C11"], "quick", "vacuity witness for M1: a constructive collision between two different relevant-blocker sets is reachable; must FAIL",
+    ["magic_index"], "rook d4", kind="witness", module=MT, unwind=17, est_s=20)
+add("m2_slider_moves_rook", ["C11"], "quick", "slider_moves(rook deltas, sq, b) == reference rook rays for symbolic sq and b",
+    ["slider_moves", "try_offset", "to_rank_file", "from_rank_file"], "symbolic square, symbolic 64-bit blocker set", module=MT, unwind=9, est_s=60)
+add("m2_slider_moves_bishop", ["C11"], "quick", "slider_moves(bishop deltas, sq, b) == reference bishop rays for symbolic sq and b",
+    ["slider_moves", "try_offset", "to_rank_file", "from_rank_file"], "symbolic square, symbolic 64-bit blocker set", module=MT, unwind=9, est_s=60)
+add("m2_lookup_standins", ["C11", "C01"], "quick", "the slider_moves-based stand-ins used where lookups are stubbed equal the reference rays",
+    ["slider_moves"], "symbolic square, symbolic blockers", module=MT, unwind=9, est_s=60)
+add("m3_make_table_small", ["C11"], "thorough",
+    "real make_table on a harness-supplied magic set (2-bit masks on a1,d1,b2,d4, empty elsewhere, symbolic multiplier): every slot a subset indexes holds slider_moves of a subset with that index",
+    ["make_table", "magic_index", "slider_moves"], "masks <= 2 bits on 4 representative squares; symbolic multiplier", module=MT, unwind=66, est_s=900, heavy=True)
+
+EV = "evaluate::kani_verif::"
+GENSTUB = "MoveGenerator::generate_moves -> symbolic empty / non-empty list + argument record; MoveGenerator::get_attack_targets -> arbitrary bitboard A + argument record; contracts discharged by C01 (legal-move set) and A1/C11 (attack map)"
+for col, cname in [("w", "White"), ("b", "Black")]:
+    add(f"c06_check_{col}", ["C06"], "quick",
+        f"player_is_in_check({cname}) <=> {cname}'s king square lies in the attack map requested for the OPPONENT on THIS board; current_player_is_in_check asks about the side to move",
+        ["player_is_in_check", "current_player_is_in_check"], "fully symbolic Disjoint board; A arbitrary", stubs=[NOSPILL, GENSTUB], module=EV, est_s=60)
+    add(f"c06_ending_{col}", ["C06"], "quick",
+        f"game_ending / player_is_in_checkmate for {cname} to move: Checkmate <=> no legal move and in check; Stalemate <=> no legal move and not in check; otherwise None; legal moves and attack map requested for the right sides on this board",
+        ["game_ending", "player_is_in_checkmate", "current_player_is_in_check"],
+        "fully symbolic Disjoint board; symbolic emptiness of the legal-move list; A arbitrary; repetition count != 3 and half-move clock < 50 (below every draw threshold); board.turn() == side asked about (what callers pass)",
+        stubs=[NOSPILL, GENSTUB], module=EV, est_s=60)
+    add(f"c16_draw_{col}", ["C16"], "quick",
+        f"game_ending for {cname} to move reports Draw on move count <=> half-move clock >= 100 (symbolic clock, repetition count != 3)",
+        ["game_ending"], "fully symbolic Disjoint board, symbolic half-move clock (all 256 values), symbolic move-list emptiness and attack map",
+        stubs=[NOSPILL, GENSTUB], module=EV, est_s=60)
+add("c18_tab", ["C18"], "quick", "table identity: bonus(white piece on sq) == bonus(black piece on 63-sq) for symbolic piece kind, phase and square; index maps in range; per-piece value in (0, 20050]",
+    ["BONUS_TABLES", "SQUARE_TO_WHITE_BONUS_INDEX", "SQUARE_TO_BLACK_BONUS_INDEX", "MATERIAL_VALUES"], "symbolic (kind, phase, square)", module=EV, unwind=4, est_s=30)
+add("c18_eg", ["C18"], "quick", "is_endgame(b) == is_endgame(mirror(b)) on a fully symbolic board (mirror = swap colours + rotate 180 degrees)",
+    ["is_endgame"], "fully symbolic Disjoint board", module=EV, est_s=30)
+add("c18_bound", ["C18"], "quick", "for per-side scores in [19000, 30600] the difference cannot overflow i16 and lies strictly inside (BLACK_WINS+255, WHITE_WINS-255)",
+    ["WHITE_WINS", "BLACK_WINS", "the subtraction of board_material_score"], "two symbolic i16 in the range proved by c18_side", module=EV, unwind=4, est_s=10)
+add("c18_mate", ["C18"], "quick", "score(): mate scores lie outside [-11855, 11855], are strictly monotone in the remaining depth (quicker mate better for the mating side), never overflow for depth 0..255; stalemate scores 0",
+    ["score"], "fully symbolic Disjoint board, symbolic remaining depths d1,d2: u8, symbolic side to move; repetition count != 3",
+    stubs=["game_ending -> harness-chosen verdict (its own contract: c06_ending_*)"], module=EV, est_s=60)
+add("c18_sym_1", ["C18"], "thorough", "board_material_score(b) == -board_material_score(mirror(b)) for two kings + up to 1 further piece (kind, colour, square symbolic)",
+    ["board_material_score", "player_material_score", "is_endgame"], "kings on symbolic squares + <=1 symbolic piece", module=EV, unwind=66, est_s=300)
+add("c18_sym_2", ["C18"], "thorough", "board_material_score(b) == -board_material_score(mirror(b)) for two kings + up to 2 further pieces",
+    ["board_material_score", "player_material_score", "is_endgame"], "kings on symbolic squares + <=2 symbolic pieces", module=EV, unwind=66, est_s=1500, heavy=True)
+for col, cname in [("w", "White"), ("b", "Black")]:
+    add(f"c18_side_{col}", ["C18"], "thorough",
+        f"player_material_score for a fully symbolic {cname} side under the legal-material bound (pawns + extra queens/rooks/bishops/knights <= 8, one king, no pawn on rank 1/8 -- admits nine queens): no arithmetic overflow inside the real summation, 19000 <= value <= 30600",
+        ["player_material_score", "is_endgame"], "fully symbolic Disjoint board; legal-material bound on the scored side", module=EV, unwind=66, est_s=400, heavy=True)
+
+AN = "chess_move::algebraic_notation::kani_verif::"
+SF = "game::stockfish_elo::kani_verif::"
+NAMESTUB = "common::bitboard::square::to_algebraic -> table lookup NAME[trailing_zeros(sq)] without the 64-step shift-count loop; contract (equal on every one-hot input) discharged by c19_sq_*"
+for start in ["00", "16", "32", "48"]:
+    add(f"c19_sq_{start}", ["C19", "C13"], "quick",
+        f"real to_algebraic on squares {int(start)}..{int(start)+15}: two bytes, 'a'+file then '1'+rank (lower case); equals the stand-in used by the SAN harnesses",
+        ["common::bitboard::square::to_algebraic", "assert_square", "tables::ALGEBRAIC"], "16 concrete one-hot inputs per harness (the input space is the 64 squares: complete over 4 harnesses)",
+        module=AN, unwind=66, est_s=120)
+add("c13_dis_piece", ["C13"], "quick",
+    "get_disambiguating_chars for a symbolic non-pawn piece, symbolic move and <=3 rival moves from pairwise distinct origins: '' iff no rival; file letter if no rival shares the file; else rank digit if none shares the rank; else file+rank",
+    ["get_disambiguating_chars", "get_file_char", "get_rank_char"], "symbolic squares; 0..3 rivals; strings <= 2 bytes",
+    stubs=[NOSPILL, NAMESTUB], module=AN, est_s=400)
+add("c13_dis_pawn", ["C13"], "quick",
+    "get_disambiguating_chars for pawn moves: captures (standard, promotion, en passant) always carry the origin file letter; quiet pushes carry nothing",
+    ["get_disambiguating_chars", "get_file_char"], "symbolic squares, symbolic captured kind, 0..1 rival", stubs=[NOSPILL, NAMESTUB], module=AN, est_s=200)
+add("c13_sel", ["C13"], "quick",
+    "get_ambiguous_moves on a symbolic board and a symbolic 3-entry candidate list: selects exactly the other candidates with the same piece kind on their origin, the same destination and a different origin; board only read",
+    ["get_ambiguous_moves", "Board::get"], "fully symbolic Disjoint board; 3 symbolic candidates whose origins are occupied", stubs=[NOSPILL], module=AN, est_s=300)
+add("c13_parts", ["C13"], "quick",
+    "fixed-text selectors: 'x' exactly for captures (en passant included), '+' / '#' / nothing from the move effect, 'O-O' / 'O-O-O', no promotion suffix on non-promotions",
+    ["get_capture_char", "get_check_or_checkmate_char", "algebraic_castle", "get_promotion_chars"], "symbolic squares, capture tag, effect, colour", module=AN, est_s=60)
+for kind in ["std", "promo", "ep", "oo", "ooo"]:
+    for col, cname in [("w", "White"), ("b", "Black")]:
+        add(f"c19_cls_{kind}_{col}", ["C19"], "quick" if kind in ("std", "oo", "ep") else "thorough",
+            f"create_chess_move_from_uci on the standard long-coordinate text of a Legalish {KIND_NAMES[kind]} by {cname} (text built from symbolic bytes), in the same position with the mover to move: result == the move (kind, squares, capture tag, promotion piece)",
+            ["create_chess_move_from_uci", "Board::get", "Board::peek_en_passant_target", "Board::turn"],
+            STEP_ASSUME.replace("; counters below 255", ""),
+            stubs=["common::bitboard::square::square_string_to_bitboard (regex-based) -> arithmetic parser; NOT discharged: the regex parser is outside the claim"],
+            module=SF, est_s=120)
+
 def select(prop, tier):
     out = []
     for h in H:
@@ -159,6 +282,42 @@ PROPS = {
         technique=TECH + "; invariant 'key = XOR of the constants of the position's features' shown preserved by every mutator and move (per-mutator lemmas on the real tables + toggle-parity ghost log for every draw)",
         level_text="Bounded model checking of the key invariant: H0 (fresh board), H1 (848 constants of this draw non-zero, pairwise distinct), H2 (each toggle XORs exactly its feature's constant), H3 (each of the 7 board mutators changes the key by exactly the constants of the features it changes, real tables, fully symbolic board), Hmove (apply and apply;undo of every move kind toggle exactly the changed features -- parity argument valid for every draw), separation of neighbouring positions. By induction over mutator calls the key is a function of (placement, rights, ep).",
         level_note="Side condition checked syntactically on the tree: the key field is written only inside the three toggle functions, piece sets only inside put/remove. H1 is per draw by nature (each check run sees a fresh draw, the build script runs inside the Kani build). Trusted: Kani/CBMC/CaDiCaL.",
+    ),
+    "C01": dict(
+        title="Generated moves are exactly the legal moves of chess", jobs=16, jobs_thorough=8,
+        technique=TECH + "; compositional: per-stage contracts against independent reference rules + a wiring lemma with all stages stubbed",
+        level_text="Bounded model checking, compositional. The whole generator cannot be symbolically executed (measured), so each stage of generate_valid_moves is checked on fully symbolic boards against independent reference rules (en passant, castling conditions, pawn pushes/captures/promotions, leaper tables, slider stage, target expansion, legality filter per move kind), and two wiring lemmas on the real generate_valid_moves / generate_pawn_moves with every stage stubbed show the stages are composed as the argument assumes. The attack map is an arbitrary bitboard in the castle and filter stages; its exactness is discharged by the A1 lemmas and C11.",
+        level_note="Never runs two real stages back to back: 'each stage meets its contract' and 'the stages are wired as shown' => 'output is the legal set' is a propositional step. SmallVec's heap-spill path is cut (a spill inside a harness is a reported failure). Boards with >16 pieces or >8 pawns per side are outside the claim. Trusted: Kani/CBMC/CaDiCaL, reference rules.",
+    ),
+    "C11": dict(
+        title="Attack geometry tables are exact for every square, occupancy and build", jobs=16, jobs_thorough=8,
+        technique=TECH + "; per-square all-occupancy queries over this build's real magic constants (2^64 occupancies x all mask subsets per square), reference ray walker as oracle",
+        level_text="Bounded model checking over the build-generated constants: for each of the 128 (piece, square) pairs the solver shows that for every 64-bit occupancy and every mask subset that shares its slot, the value make_table writes (slider_moves) equals the reference ray walk -- so last-writer-wins cannot hurt and extra pieces elsewhere do not matter; segments are disjoint and in range; slider_moves equals the reference rays for symbolic square and blockers; knight/king tables equal the reference for every square. Each check run sees a fresh draw of the constants (the build script runs inside the Kani build).",
+        level_note="M3 (make_table's loop structure) is checked on small harness-supplied masks only (thorough); the build script's search terminating is outside the claim. Trusted: Kani/CBMC/CaDiCaL, reference rays in verif_ref.rs.",
+    ),
+    "C06": dict(
+        title="Check, checkmate and stalemate verdicts and move annotations are exact", jobs=16,
+        technique=TECH + "; verdict functions executed with the generator entry points stubbed by arbitrary results + ghost records of their arguments (wiring lemmas), composed with C01 and the attack-map lemmas",
+        level_text="Bounded model checking of the verdict logic: on fully symbolic boards the solver shows in-check <=> king square in the attack map requested for the opponent on this board; checkmate <=> in check and no legal move; stalemate <=> not in check and no legal move; annotation applies the move, classifies the opponent on the successor position, undoes, and stores Checkmate/Check/None accordingly with the board restored. Legal-move emptiness and attack-map exactness are C01's and C11/A1's obligations.",
+        level_note="Generator entry points are stubbed (arbitrary results, arguments recorded); 'generators that served earlier queries' is C02's reduction. Trusted: Kani/CBMC/CaDiCaL.",
+    ),
+    "C18": dict(
+        title="Static evaluation is colour-symmetric and always dominated by mate scores", jobs=16, jobs_thorough=6,
+        technique=TECH + "; table identity + phase-switch symmetry on fully symbolic boards + bounded-piece equivalence + per-side range with Kani's overflow checks",
+        level_text="Bounded model checking split by what the SAT solver can decide: the bonus-table identity that makes evaluation symmetric for any number of pieces, symmetry of the game-phase switch on a fully symbolic board, full score symmetry for kings plus <=1 (quick) / <=2 (thorough) symbolic pieces, per-side range [19000,30600] with no overflow under the legal-material bound incl. nine queens (thorough), the arithmetic consequence that static scores stay strictly inside the mate band, and mate-score monotonicity in remaining depth 0..255 with stalemate = 0.",
+        level_note="Symmetry of the summation loop beyond 2 extra pieces rests on the table identity plus additivity of the loop (read, not solved: the monolithic equivalence did not finish in 25 min, measured). Trusted: Kani/CBMC/CaDiCaL.",
+    ),
+    "C13": dict(
+        title="Every legal move gets its standard, unambiguous algebraic notation", jobs=16,
+        technique=TECH + "; kernel-level: disambiguation rule, rival selection and fixed-text selectors on symbolic inputs; final format! assembly read, not executed",
+        level_text="Bounded model checking of the SAN kernels: the disambiguator equals the SAN rule for a symbolic piece, move and up to 3 rivals (so two like pieces never get the same label for the same destination), rival selection picks exactly the like-piece same-destination other-origin candidates on a symbolic board, pawn captures carry the file, capture / check / mate / castle texts are selected correctly, and square names are the standard ones for all 64 squares.",
+        level_note="The final format! concatenation of the six parts and the '=Q' suffix builder cannot be executed symbolically (core::fmt with symbolic &str: 18 GB, measured) and are read from the single format! call; uniqueness over whole move lists is derived from C01 + the kernels, not executed. to_algebraic is replaced by a verified stand-in inside the disambiguation harnesses. Trusted: Kani/CBMC/CaDiCaL.",
+    ),
+    "C19": dict(
+        title="Coordinate (UCI) move text is standard and survives the Stockfish bridge", jobs=16,
+        technique=TECH + "; square-name function over all 64 inputs + classifier round trip on symbolic boards with the text built from symbolic bytes",
+        level_text="Bounded model checking of the two decidable halves: to_algebraic yields the standard lower-case name for every square, and create_chess_move_from_uci, fed the standard text of a symbolic Legalish move of each kind in a fully symbolic invariant-satisfying position with the mover to move, reconstructs exactly that move (kind, squares, capture tag, promotion piece).",
+        level_note="Outside the claim: that ChessMove::to_uci concatenates origin, destination and suffix in that order (one format! call; core::fmt with symbolic &str is not executable in CBMC, measured), the regex inside square_string_to_bitboard (replaced by an arithmetic parser), the Stockfish process. Trusted: Kani/CBMC/CaDiCaL.",
     ),
     "C12": dict(
         title="Board representation invariants hold in every reachable state", jobs=16,
